@@ -589,7 +589,7 @@ func (w *World) buildStack() http.Handler {
 		w.Cfg.Mount + "/app/page": authboss.Middleware2(ab, authboss.RequireNone, fail)(guard(probe("mounted"), true, true)),
 		"/app/set": http.HandlerFunc(func(rw http.ResponseWriter, r *http.Request) {
 			k, v := r.URL.Query().Get("k"), r.URL.Query().Get("v")
-			if strings.HasPrefix(k, "app_") || k == "xhalfauthx" {
+			if strings.HasPrefix(k, "app_") || k == "xhalfauthx" || appShortKeys[k] {
 				authboss.PutSession(rw, k, v)
 			}
 			rw.WriteHeader(200)
@@ -657,6 +657,10 @@ func (w *World) buildStack() http.Handler {
 
 // HasDecoy reports whether a second instance lives next to this one.
 func (w *World) HasDecoy() bool { return w.decoy != nil }
+
+// appShortKeys: short session keys an application may well use for its own purposes (a tenant id, a theme
+// letter, an auth-scheme hint).
+var appShortKeys = map[string]bool{"id": true, "t": true, "auth": true, "action": true, "l": true, "last": true}
 
 // Handler exposes the full application stack.
 func (w *World) Handler() http.Handler { return w.handler }
